@@ -276,10 +276,46 @@ def r5_escape_obligations(ctx: Ctx) -> None:
 
 
 
+def r6_whole_input_is_parsed(ctx: Ctx) -> None:
+    """success means every statement was assembled: the top-level parser stops only at the EOF token, the scanner only at the
+    end of the text, and code generation visits every parsed node."""
+    pi = ctx.repo.func("a816.parse.parser_states", "parse_initial")
+    loops = [n for n in walk_no_nested(pi.node) if isinstance(n, ast.While)]
+    ok = len(loops) == 1 and unparse(loops[0].test) == "p.current().type != TokenType.EOF" and loops[0] in pi.node.body
+    ctx.check(ok, "parse_initial:until-EOF", f"statements are parsed until the EOF token; loop guard(s) {[unparse(l.test) for l in loops]}")
+    if loops:
+        early = [type(s).__name__ for s in walk_no_nested(loops[0]) if isinstance(s, (ast.Break, ast.Return))]
+        ctx.check(not early, "parse_initial:no-early-exit", f"nothing leaves the top-level loop before EOF except an error; found {early}")
+        stmts = [s for s in loops[0].body if isinstance(s, ast.Assign) and call_name(s.value) == "parse_decl"]
+        ctx.check(len(stmts) == 1, "parse_initial:parses-declarations", "each iteration parses one declaration with parse_decl")
+    rets = [r for r in walk_no_nested(pi.node) if isinstance(r, ast.Return)]
+    ctx.check(len(rets) == 1 and rets[0] is pi.node.body[-1], "parse_initial:single-return", "returns after the loop")
+    for c in calls_in(pi.node):
+        if call_name(c) in ("parse_block",):
+            ctx.fail("parse_initial:delegates-to-parse_block", "parse_block stops at a closing brace: at top level a stray `}` would silently end the program")
+    sc = ctx.repo.func("a816.parse.scanner", "Scanner.scan")
+    loops = [n for n in walk_no_nested(sc.node) if isinstance(n, ast.While)]
+    ok = len(loops) == 1 and unparse(loops[0].test) == "self.pos < len(self.input)"
+    ctx.check(ok, "Scanner.scan:until-end", "the scanner runs until the end of the text")
+    if loops:
+        brk = [s for s in walk_no_nested(loops[0]) if isinstance(s, ast.Break)]
+        for b in brk:
+            # the only tolerated break is the `state is None` arm
+            par_ok = any(isinstance(s, ast.If) and unparse(s.test) == "self.state is not None" and any(x is b for o in s.orelse for x in ast.walk(o)) for s in walk_no_nested(loops[0]))
+            ctx.check(par_ok, "Scanner.scan:break", "scanning stops early only when there is no state function")
+    cg = ctx.repo.func("a816.parse.codegen", "_code_gen")
+    loops = [n for n in walk_no_nested(cg.node) if isinstance(n, ast.For)]
+    ok = len(loops) == 1 and unparse(loops[0].iter) == cg.params()[0] and not [s for s in walk_no_nested(loops[0]) if isinstance(s, (ast.Break, ast.Continue, ast.Return))]
+    ctx.check(ok, "_code_gen:every-node", "every parsed node is expanded (or raises 'Left over node')")
+    if loops:
+        other = [s for s in walk_no_nested(loops[0]) if isinstance(s, ast.If) and s.orelse and always_raises(s.orelse)]
+        ctx.check(len(other) == 1, "_code_gen:unknown-kind-raises", "a node kind without a generator is an error, not skipped")
+
+
 def rb_binding_agreement(ctx: Ctx) -> None:
     from ..ownership import binding_agreement
 
     binding_agreement(ctx)
 
 
-RULES = [r1_handler_census, r2_entry_point_status, r3_error_values_consumed, r4_success_last, r5_escape_obligations, rb_binding_agreement]
+RULES = [r1_handler_census, r2_entry_point_status, r3_error_values_consumed, r4_success_last, r5_escape_obligations, r6_whole_input_is_parsed, rb_binding_agreement]
